@@ -103,20 +103,6 @@ def oracle_member(case, ctx):
         rep = guarded(ctx, f'make_{kind}_representation({name})', reps.make_rep, kind, name, shape, space)
         arrays = guarded(ctx, f'{kind}/{name}.convert', reps.convert, kind, rep, d)
         check_in_space(ctx, f'{kind}/{name} {shape} types {space["types"]} colours {space["colors"]}', rep.space, arrays, keys)
-    resized = False
-    if kind == 'state' and shape != (2, 2):
-        # a space that grows after representations were derived from it (a curriculum of larger and larger worlds keeps one environment,
-        # one space object, one representation object): `grid_shape` is a public attribute, and the unchanged library follows it
-        from gym_gridverse.geometry import Shape
-        for name in reps.NAMES:
-            sp = reps.state_space((2, 2), space)
-            rep = guarded(ctx, f'make_state_representation({name})', make_state_representation, name, sp)
-            small = {'grid': [r[:2] for r in d['grid'][:2]], 'agent': [0, 0, 'F', d['agent'][3]]}
-            check_in_space(ctx, f'state/{name} (2, 2) before the space grows', rep.space, guarded(ctx, 'convert', rep.convert, objs.build_state(small)), STATE_KEYS)
-            sp.grid_shape = Shape(*shape)
-            arrays = guarded(ctx, f'state/{name}.convert after the space grew', rep.convert, objs.build_state(d))
-            check_in_space(ctx, f'state/{name}: the space of a representation built for 2x2 was resized to {shape} (grid_shape reassigned), member of the new shape', rep.space, arrays, STATE_KEYS)
-        resized = True
     objs_in = [o for r in d['grid'] for o in r] + [d['agent'][3]]
     tmax = max(M.BUILTIN_TYPE_ORDER.index(t) for t in space['types'])
     cmax = max(M.COLOR_VALUE[c] for c in space['colors'])
@@ -135,8 +121,6 @@ def oracle_member(case, ctx):
         cl.append('agent_x>=height')
     if max(shape) >= 127:
         cl.append('long_grid')
-    if resized:
-        cl.append('space_resized_after_construction')
     ctx.ev.case(case, nt=len(cl) > 1, classes=cl, sample=({'kind': kind, 'space': space, 'member': {'shape': list(shape), 'agent': d['agent'], 'top_rows': d['grid'][:2]}} if max(shape) > 12 else None))
 
 
@@ -289,7 +273,7 @@ def oracle_hist(case, ctx):
 CHECKS = [
     Check('members', oracle_member, strategy=strat_member, examples={'quick': 500, 'thorough': 2000}, shards={'quick': 4, 'thorough': 16},
           rule='type subset x colour subset x shape (states >= 2x2, views odd width; one case in six tiled to a long grid with a dimension of 40..300, around the 127/128 and 255/256 boundaries) x member built to contain the extremes x 3 representations: key by key inside the declared space, own bounds/dtype check, gym Box and Dict',
-          required=['max_type', 'locked_door', 'max_colour', 'agent_corner', 'nonsquare', 'agent_x>=height', 'state', 'obs', 'long_grid', 'space_resized_after_construction']),
+          required=['max_type', 'locked_door', 'max_colour', 'agent_corner', 'nonsquare', 'agent_x>=height', 'state', 'obs', 'long_grid']),
     Check('all_objects', oracle_objects, enumerate=enum_objects, shards={'quick': 16, 'thorough': 16}, exhaustive=True,
           rule='all 2^9-1 type subsets x 4 colour subsets (16 thorough): every object of the space as a grid cell and as the held item, for states and observations x 3 representations'),
     Check('trajectories', oracle_hist, strategy=strat_hist, examples={'quick': 4, 'thorough': 12}, shards={'quick': 4, 'thorough': 16},
